@@ -1255,8 +1255,9 @@ fn arb_roundtrips(sh: &mut Shared, sql: &mut SqlEnv, seed: u64, n: u32) {
     let _ = sql.wipe_account();
 }
 
-/// Behaviours OUTSIDE the documented drive contract (so not judged by the specification), probed
-/// once and reported as notes for the maintainer.
+/// Dedicated probes run once (shard 0): (1) a JUDGED scenario the trace generator deliberately
+/// avoids (saving an unchanged Complete state twice, then a wallet rollback); (2) a behaviour
+/// OUTSIDE the documented drive contract, reported as an unjudged note.
 fn side_observations(sh: &mut Shared, sql: &mut SqlEnv, rng: &mut ChaCha20Rng) {
     let prep = zcash_pool_migration::preparation::PreparationPlan::from_parts(vec![], vec![]);
     let mut f = fixtures::synthetic(rng, prep);
@@ -1285,31 +1286,77 @@ fn side_observations(sh: &mut Shared, sql: &mut SqlEnv, rng: &mut ChaCha20Rng) {
         .collect();
     let complete = fixtures::with_txs(&f.state, MigrationStatus::Complete, txs);
     let _ = sql.wipe_account();
-    let r = (|| -> Result<String, String> {
+    // JUDGED (dedicated probe only; the trace generator never saves an unchanged terminal state
+    // twice, so this class cannot mask others): a saved migration must survive being saved again
+    // and the wallet's rollback afterwards.
+    let want_after = {
+        let mut e = complete.clone();
+        e.truncate_to_height(bh(tip - 4));
+        e
+    };
+    let r = (|| -> Result<(u64, u64, Result<(u32, u32), String>, Option<MigrationState>, u64), String> {
         sql.replace(&fixtures::with_status(&complete, MigrationStatus::InProgress))?;
         sql.replace(&complete)?;
         let rows1 = sql.row_counts()?.1;
         sql.replace(&complete)?;
         let rows2 = sql.row_counts()?.1;
         let t = sql.wallet_truncate(4);
-        Ok(format!(
-            "rows after first Complete persist {rows1}, after an identical second persist {rows2}; wallet truncate_to_height below the mined heights -> {}",
-            match t {
-                Ok(_) => "ok".to_string(),
-                Err(e) => format!("ERROR {}", e.chars().take(160).collect::<String>()),
-            }
-        ))
+        let after = sql.get()?;
+        let pending = sql.row_counts()?.0;
+        Ok((rows1, rows2, t, after, pending))
     })();
     sql.regrow();
     let _ = sql.wipe_account();
+    let replay = json!({
+        "probe": "idempotent-save-of-complete",
+        "calls": [
+            "PoolMigrations::replace_migration(state with status InProgress, every transaction Mined at tip-1 / tip-2)",
+            "replace_migration(same state, status Complete)",
+            "replace_migration(same Complete state again)",
+            "WalletDb::truncate_to_height(tip - 4)"
+        ],
+        "state": state_digest(&snap(&complete)),
+    });
+    sh.r.count("probe_idempotent_save_of_complete", 1);
     match r {
-        Ok(msg) => {
-            if msg.contains("ERROR") {
-                sh.r.count("observation_duplicate_complete_row_breaks_wallet_truncation", 1);
+        Ok((rows1, rows2, t, after, pending)) => {
+            let msg = format!(
+                "rows after first Complete persist {rows1}, after an identical second persist {rows2}; wallet truncate_to_height below the mined heights -> {}",
+                match &t {
+                    Ok(_) => "ok".to_string(),
+                    Err(e) => format!("ERROR {}", e.chars().take(200).collect::<String>()),
+                }
+            );
+            match t {
+                Err(_) => {
+                    let class = if rows2 > rows1 {
+                        "C18:sqlite-store:idempotent-save-of-complete-duplicates-row:truncation-fails"
+                    } else {
+                        "C18:sqlite-store:save-of-complete-then-rollback:truncation-fails"
+                    };
+                    sh.r.violation(class, msg, replay);
+                }
+                Ok(_) => {
+                    if pending > 1 || after.as_ref() != Some(&want_after) {
+                        let f = after
+                            .as_ref()
+                            .map(|a| model::first_difference(a, &want_after))
+                            .unwrap_or_else(|| "missing".into());
+                        let class = if rows2 > rows1 {
+                            "C18:sqlite-store:idempotent-save-of-complete-duplicates-row:rollback-diverges"
+                        } else {
+                            "C18:sqlite-store:save-of-complete-then-rollback:rollback-diverges"
+                        };
+                        sh.r.violation(
+                            class,
+                            format!("{msg}; {pending} pending rows; migration read back differs from truncate_to_height in {f}"),
+                            replay,
+                        );
+                    }
+                }
             }
-            sh.r.note(format!("observation (outside the oracle): replace_migration of an unchanged Complete state: {msg}"));
         }
-        Err(e) => sh.r.note(format!("observation probe failed: {e}")),
+        Err(e) => sh.r.inconclusive(&format!("idempotent-save probe could not run: {}", e.chars().filter(|c| !c.is_ascii_digit()).take(80).collect::<String>())),
     }
     // (2) stale mutator calls outside the drive contract
     let mut s = complete.clone();
